@@ -352,6 +352,8 @@ def check(pid, tier):
     binaries = {}
     runs = cfg[tier] if tier in cfg else cfg["quick"]
     timeout = cfg.get(tier + "_timeout", 900 if tier == "quick" else 4 * 3600)
+    if os.environ.get("VERIF_TIMEOUT"):
+        timeout = int(os.environ["VERIF_TIMEOUT"])  # (sensitivity runs on a loaded machine)
     # build what is needed (always from the current working tree of /repo)
     for r in runs:
         key = r.get("module", "harness") + ("-race" if r.get("race") else "")
